@@ -27,6 +27,21 @@ CLASSES = {
     'BitStream': dict(bases=[], fields={'bits': BITS, 'len': INT, 'pos': INT},
                       field_facts={'len': lambda z: z >= 0, 'pos': lambda z: z >= 0}),
     'MBits': dict(bases=[], module='spec.bitmodel', fields={'len': INT, 'val': INT}),
+    # ---- mdquery / bufr ------------------------------------------------------------------------
+    'MetadataExprParser': dict(bases=[], module='pybufrkit.mdquery', fields={}),
+    'MetadataQuerent': dict(bases=[], module='pybufrkit.mdquery',
+                            fields={'metadata_expr_parser': Ref('MetadataExprParser')}, nonnull=['metadata_expr_parser']),
+    # A section is abstracted to the ordered list of its parameters (`_params` stands for
+    # `_namespace.values()`, an OrderedDict in insertion order) plus its metadata attributes.
+    'SectionParameter': dict(bases=[], module='pybufrkit.bufr',
+                             fields={'name': STR, 'nbits': INT, 'type': STR, 'expected': VAL, 'as_property': BOOL,
+                                     'parent': Ref('BufrSection'), 'value': VAL}),
+    'BufrSection': dict(bases=[], module='pybufrkit.bufr',
+                        fields={'_params': ListT(Ref('SectionParameter')), 'index': INT, 'description': STR,
+                                'optional': BOOL, 'end_of_message': BOOL}, nonnull=['_params']),
+    'BufrMessage': dict(bases=[], module='pybufrkit.bufr',
+                        fields={'filename': STR, 'sections': ListT(Ref('BufrSection')), 'serialized_bytes': VAL,
+                                'table_group_key': VAL}, nonnull=['sections']),
     # ---- descriptors ------------------------------------------------------------------------
     'Descriptor': dict(bases=[], module='pybufrkit.descriptors', fields={'id': INT}),
     'AssociatedDescriptor': dict(bases=['Descriptor'], module='pybufrkit.descriptors',
@@ -91,6 +106,23 @@ def check_hierarchy(db, classes):
         if src_bases != info.get('bases', []):
             problems.append('%s: bases %r in source, %r in class table' % (name, src_bases, info.get('bases', [])))
     return problems
+
+
+# ---------------------------------------------------------------------------------------------
+# BufrSection: iteration / len over the parameter list
+
+def section_iter(eng, ctx, st, sec):
+    return eng.read_field(ctx, st, sec, '_params')
+
+
+def section_len(eng, ctx, st, sec):
+    lst = eng.read_field(ctx, st, sec, '_params')
+    n = eng.list_len(st, lst)
+    st.assume(n >= 0)
+    return SV(INT, n)
+
+
+CLASSES['BufrSection']['hooks'] = {'iter': section_iter, 'len': section_len}
 
 
 # ---------------------------------------------------------------------------------------------
